@@ -27,7 +27,9 @@ var vars = []string{"A", "B", "C", "HOME", "UNSET1", "X_1"}
 
 // the environment: values that themselves look like references, so a second
 // expansion pass would be visible
-var envValues = map[string]string{"A": "a-val", "B": "$A", "C": "$$A and ${HOME}", "HOME": "/home/u", "X_1": ""}
+var envValues = map[string]string{"A": "a-val", "B": "$A", "C": "$$A and ${HOME}", "HOME": "/home/u", "X_1": "",
+	// variables whose VALUE is (part of) another variable's NAME: env-block names built by expansion
+	"NAMEOF": "HOME", "PFX": "V", "NAMEA": "A"}
 
 type tstats struct {
 	refs, escapes, failing, nkey int
@@ -374,11 +376,26 @@ func TestPropEnvBlockThenRest(t *testing.T) {
 		names := rapid.Permutation(blockNames).Draw(t, "bnames")[:nb]
 		type ent struct{ k, v string }
 		var block []ent
-		for _, n := range names {
+		written := make([]string, len(names))
+		for i, n := range names {
+			// one name in four is built by expansion - onto a variable the block alone defines (V1..V4) or onto
+			// one the caller's environment already holds (A, HOME)
+			written[i] = n
+			if rapid.IntRange(0, 3).Draw(t, "builtname") == 0 {
+				switch {
+				case n == "HOME":
+					written[i] = "${NAMEOF}"
+				case n == "A":
+					written[i] = "$NAMEA"
+				default:
+					written[i] = "${PFX}" + n[1:]
+				}
+				recBlock.Class("name-built-by-expansion")
+			}
 			block = append(block, ent{n, pick("bval")})
 		}
 		var b strings.Builder
-		b.WriteString("{\"env\": " + obj(names, func(i int) string { return q(block[i].v) }))
+		b.WriteString("{\"env\": " + obj(written, func(i int) string { return q(block[i].v) }))
 		// steps
 		b.WriteString(", \"steps\": [")
 		ns := rapid.IntRange(1, 4).Draw(t, "nsteps")
